@@ -290,6 +290,7 @@ class Mesh(MeshBase):
         """
         if self._frequencies is None:
             self.run()
+        self._q_count = 0
         return self
 
     def __next__(self):
@@ -528,6 +529,7 @@ class IterMesh(MeshBase):
 
     def __iter__(self):
         """Define iterator over q-points."""
+        self._q_count = 0
         return self
 
     def __next__(self):
